@@ -1,3 +1,626 @@
-import ZarrsModel.Model.Meta
 import ZarrsModel.Model.Hier
-/- helper lemmas for C13 -/
+import ZarrsModel.Lemmas.Store
+/- helper lemmas for C13: hierarchy discovery -/
+namespace Zarrs.Hier
+open Zarrs
+
+/-! ### reading metadata -/
+
+def metaKeys : List Key := [kZarrJson, kZarray, kZgroup]
+
+theorem getMeta_node_key (r : Reader) (m : KV) (pre : Key) (k : Kind) (h : getMeta r m pre = .node k) :
+    ∃ s ∈ metaKeys, pre ++ s ∈ m.keys := by
+  unfold getMeta at h
+  cases h1 : m.get (pre ++ kZarrJson) with
+  | some v => exact ⟨kZarrJson, by simp [metaKeys], (KV.mem_keys_iff_get m _).2 (by rw [h1]; simp)⟩
+  | none =>
+    cases h2 : m.get (pre ++ kZarray) with
+    | some v => exact ⟨kZarray, by simp [metaKeys], (KV.mem_keys_iff_get m _).2 (by rw [h2]; simp)⟩
+    | none =>
+      cases h3 : m.get (pre ++ kZgroup) with
+      | some v => exact ⟨kZgroup, by simp [metaKeys], (KV.mem_keys_iff_get m _).2 (by rw [h3]; simp)⟩
+      | none => simp [h1, h2, h3] at h
+
+theorem getMeta_congr (r : Reader) (m m' : KV) (pre pre' : Key)
+    (h : ∀ s ∈ [kZarrJson, kZattrs, kZarray, kZgroup], m.get (pre ++ s) = m'.get (pre' ++ s)) :
+    getMeta r m pre = getMeta r m' pre' := by
+  unfold getMeta
+  rw [h kZarrJson (by simp), h kZattrs (by simp), h kZarray (by simp), h kZgroup (by simp)]
+
+theorem getMeta_missing_of_none (r : Reader) (m : KV) (pre : Key)
+    (h : ∀ s ∈ [kZarrJson, kZarray, kZgroup], m.get (pre ++ s) = none) : getMeta r m pre = .missing := by
+  unfold getMeta
+  rw [h kZarrJson (by simp), h kZarray (by simp), h kZgroup (by simp)]
+
+def attrsOk (r : Reader) (m : KV) (pre : Key) : Bool :=
+  match m.get (pre ++ kZattrs) with | some a => r.okAttrs a | none => true
+
+theorem getMeta_eq (r : Reader) (m : KV) (pre : Key) : getMeta r m pre =
+    match m.get (pre ++ kZarrJson) with
+    | some v => (match r.cls v with
+      | some true => .node .group3
+      | some false => .node .array3
+      | none => .invalid)
+    | none =>
+      match m.get (pre ++ kZarray) with
+      | some v => if r.okA v && attrsOk r m pre then .node .array2 else .invalid
+      | none => match m.get (pre ++ kZgroup) with
+        | some v => if r.okG v && attrsOk r m pre then .node .group2 else .invalid
+        | none => .missing := by
+  unfold getMeta attrsOk; rfl
+
+theorem nodeExists_iff_node (r : Reader) (m : KV) (pre : Key) (hr : getMeta r m pre ≠ .invalid) :
+    nodeExists m pre = true ↔ ∃ k, getMeta r m pre = .node k := by
+  unfold nodeExists
+  rw [getMeta_eq] at hr ⊢
+  generalize attrsOk r m pre = ao at hr ⊢
+  cases h1 : m.get (pre ++ kZarrJson) with
+  | some v =>
+    simp only [h1] at hr ⊢
+    cases hc : r.cls v with
+    | none => simp [hc] at hr
+    | some b => cases b <;> simp
+  | none =>
+    simp only [h1] at hr ⊢
+    cases h2 : m.get (pre ++ kZarray) with
+    | some v =>
+      simp only [h2] at hr ⊢
+      by_cases hb : (r.okA v && ao) = true
+      · simp [hb]
+      · simp [hb] at hr
+    | none =>
+      simp only [h2] at hr ⊢
+      cases h3 : m.get (pre ++ kZgroup) with
+      | some v =>
+        simp only [h3] at hr ⊢
+        by_cases hb : (r.okG v && ao) = true
+        · simp [hb]
+        · simp [hb] at hr
+      | none => simp
+
+/-! ### prefixes -/
+
+theorem prefix_of_append_noSlash (p q s : Key) (hp : p.getLast? = some '/') (hs : '/' ∉ s) (h : p <+: q ++ s) :
+    p <+: q := by
+  by_cases hl : p.length ≤ q.length
+  · exact List.prefix_of_prefix_length_le h (List.prefix_append q s) hl
+  · have hq : q <+: p := List.prefix_of_prefix_length_le (List.prefix_append q s) h (by omega)
+    obtain ⟨t, rfl⟩ := hq
+    have ht : t <+: s := (List.prefix_append_right_inj q).1 h
+    exfalso
+    apply hs
+    have htne : t ≠ [] := by intro e; subst e; simp at hl
+    have : t.getLast? = some '/' := by
+      rw [List.getLast?_append] at hp
+      cases hgl : t.getLast? with
+      | none => rw [List.getLast?_eq_none_iff] at hgl; exact absurd hgl htne
+      | some c => rw [hgl] at hp; simpa using hp
+    exact ht.subset (List.mem_of_getLast? this)
+
+theorem slash_notin_metaKeys : ∀ s ∈ [kZarrJson, kZattrs, kZarray, kZgroup], '/' ∉ s := by decide
+
+theorem getMeta_erasePrefix_other (r : Reader) (m : KV) (p q : Key) (hp : p.getLast? = some '/')
+    (hq : ¬ (p.isPrefixOf q = true)) : getMeta r (Spec.step m (.erasePrefix p)).1 q = getMeta r m q := by
+  apply getMeta_congr
+  intro s hs
+  rw [Spec.erasePrefix_get]
+  have : hasPrefix (q ++ s) p = false := by
+    rw [Bool.eq_false_iff]
+    intro hc
+    unfold hasPrefix at hc
+    rw [List.isPrefixOf_iff_prefix] at hc hq
+    exact hq (prefix_of_append_noSlash p q s hp (slash_notin_metaKeys s hs) hc)
+  rw [this]; rfl
+
+theorem getMeta_erasePrefix_under (r : Reader) (m : KV) (p q : Key) (hq : p.isPrefixOf q = true) :
+    getMeta r (Spec.step m (.erasePrefix p)).1 q = .missing := by
+  apply getMeta_missing_of_none
+  intro s _
+  rw [Spec.erasePrefix_get]
+  have : hasPrefix (q ++ s) p = true := by
+    unfold hasPrefix
+    rw [List.isPrefixOf_iff_prefix] at hq ⊢
+    exact hq.trans (List.prefix_append q s)
+  rw [this]; rfl
+
+/-! ### the listing recursion -/
+
+/-- what is listed beneath a found node -/
+def subNodes (r : Reader) (m : KV) (recursive : Bool) (fuel : Nat) (q : Key) (k : Kind) : Option (List Tree) :=
+  if recursive && k.isGroup then childNodes r m true fuel q else some []
+
+theorem childList_nil (r : Reader) (m : KV) (rec : Bool) (fuel : Nat) : childList r m rec fuel [] = some [] := by
+  rw [childList]
+
+theorem childList_cons_invalid (r : Reader) (m : KV) (rec : Bool) (fuel : Nat) (q : Key) (rest : List Key)
+    (h : getMeta r m q = .invalid) : childList r m rec fuel (q :: rest) = none := by
+  cases fuel <;> simp [childList, h]
+
+theorem childList_cons_missing (r : Reader) (m : KV) (rec : Bool) (fuel : Nat) (q : Key) (rest : List Key)
+    (h : getMeta r m q = .missing) : childList r m rec fuel (q :: rest) = childList r m rec fuel rest := by
+  cases fuel <;> simp [childList, h]
+
+theorem childList_cons_node (r : Reader) (m : KV) (rec : Bool) (fuel : Nat) (q : Key) (rest : List Key) (k : Kind)
+    (h : getMeta r m q = .node k) : childList r m rec fuel (q :: rest) =
+      (subNodes r m rec fuel q k).bind (fun cs => (childList r m rec fuel rest).map (fun ts => Tree.mk q k cs :: ts)) := by
+  cases fuel with
+  | zero =>
+    simp only [childList, h, subNodes, childNodes]
+    cases childList r m rec 0 rest <;> simp
+  | succ f =>
+    by_cases hg : (rec && k.isGroup) = true
+    · simp only [childList, h, subNodes, hg, if_true]
+      cases childNodes r m true (f + 1) q <;> cases childList r m rec (f + 1) rest <;> simp
+    · simp only [childList, h, subNodes, hg]
+      cases childList r m rec (f + 1) rest <;> simp
+
+theorem flattenList_nil : flattenList [] = [] := by rw [flattenList]
+theorem flattenList_cons (q : Key) (k : Kind) (cs ts : List Tree) :
+    flattenList (Tree.mk q k cs :: ts) = (q, k) :: (flattenList cs ++ flattenList ts) := by
+  rw [flattenList, Tree.flatten]; rfl
+
+/-- the list recursion, given what the sub-listings are -/
+theorem childList_spec (r : Reader) (m : KV) (rec : Bool) (fuel : Nat) (S : Key → Key × Kind → Prop) (qs : List Key)
+    (hr : ∀ q ∈ qs, getMeta r m q ≠ .invalid)
+    (hsub : ∀ q ∈ qs, ∀ k, getMeta r m q = .node k →
+      ∃ cs, subNodes r m rec fuel q k = some cs ∧ ∀ x, x ∈ flattenList cs ↔ S q x) :
+    ∃ ts, childList r m rec fuel qs = some ts ∧
+      ∀ x, x ∈ flattenList ts ↔ ∃ q ∈ qs, ∃ k, getMeta r m q = .node k ∧ (x = (q, k) ∨ S q x) := by
+  induction qs with
+  | nil => exact ⟨[], childList_nil .., by simp [flattenList_nil]⟩
+  | cons q rest ih =>
+    obtain ⟨ts, hts, hmem⟩ := ih (fun q' hq' => hr q' (List.mem_cons_of_mem _ hq'))
+      (fun q' hq' => hsub q' (List.mem_cons_of_mem _ hq'))
+    cases hq : getMeta r m q with
+    | invalid => exact absurd hq (hr q (List.mem_cons_self ..))
+    | missing =>
+      refine ⟨ts, by rw [childList_cons_missing _ _ _ _ _ _ hq, hts], ?_⟩
+      intro x
+      rw [hmem]
+      constructor
+      · rintro ⟨q', hq', k, hk, hx⟩; exact ⟨q', List.mem_cons_of_mem _ hq', k, hk, hx⟩
+      · rintro ⟨q', hq', k, hk, hx⟩
+        rcases List.mem_cons.1 hq' with rfl | hq'
+        · rw [hq] at hk; cases hk
+        · exact ⟨q', hq', k, hk, hx⟩
+    | node k =>
+      obtain ⟨cs, hcs, hcmem⟩ := hsub q (List.mem_cons_self ..) k hq
+      refine ⟨Tree.mk q k cs :: ts, by rw [childList_cons_node _ _ _ _ _ _ _ hq, hcs, hts]; rfl, ?_⟩
+      intro x
+      rw [flattenList_cons, List.mem_cons, List.mem_append, hmem, hcmem]
+      constructor
+      · rintro (rfl | h | ⟨q', hq', k', hk', hx⟩)
+        · exact ⟨q, List.mem_cons_self .., k, hq, Or.inl rfl⟩
+        · exact ⟨q, List.mem_cons_self .., k, hq, Or.inr h⟩
+        · exact ⟨q', List.mem_cons_of_mem _ hq', k', hk', hx⟩
+      · rintro ⟨q', hq', k', hk', hx⟩
+        rcases List.mem_cons.1 hq' with rfl | hq'
+        · rw [hq] at hk'; cases hk'
+          rcases hx with hx | hx
+          · exact Or.inl hx
+          · exact Or.inr (Or.inl hx)
+        · exact Or.inr (Or.inr ⟨q', hq', k', hk', hx⟩)
+
+/-! ### child prefixes -/
+
+/-- `q` is `pre` plus one path component -/
+def oneBelow (pre q : Key) : Prop := ∃ c : Key, c ≠ [] ∧ '/' ∉ c ∧ q = pre ++ c ++ ['/']
+
+theorem isChildPrefix_iff (pre q : Key) : isChildPrefix pre q = true ↔ oneBelow pre q := by
+  unfold isChildPrefix oneBelow
+  simp only [Bool.and_eq_true, decide_eq_true_eq, beq_iff_eq, Bool.not_eq_true', List.isPrefixOf_iff_prefix]
+  constructor
+  · rintro ⟨⟨s, rfl⟩, ⟨h1, h2⟩, h3⟩
+    rw [List.drop_left] at h1 h2 h3
+    obtain ⟨c, rfl⟩ := List.getLast?_eq_some_iff.1 h2
+    rw [List.dropLast_concat] at h3
+    refine ⟨c, ?_, ?_, by simp⟩
+    · intro e; subst e; simp at h1
+    · intro hc; simp [hc] at h3
+  · rintro ⟨c, hc1, hc2, rfl⟩
+    refine ⟨⟨c ++ ['/'], by simp⟩, ?_⟩
+    have : List.drop pre.length (pre ++ c ++ ['/']) = c ++ ['/'] := by
+      rw [List.append_assoc, List.drop_left]
+    rw [this, List.dropLast_concat]
+    refine ⟨⟨?_, List.getLast?_concat ..⟩, by simpa using hc2⟩
+    cases c with
+    | nil => exact absurd rfl hc1
+    | cons x xs => simp
+
+theorem mem_discover (m : KV) (pre : Key) (hp : dirShaped pre) (hv : ∀ k ∈ m.keys, validKeyB k = true) (q : Key) :
+    q ∈ discover m pre ↔
+      (oneBelow pre q ∧ ∃ k ∈ m.keys, q.isPrefixOf k = true) ∧ ¬ ("__".toList.isPrefixOf q = true) := by
+  unfold discover
+  rw [List.mem_filter, Spec.listDir_prefixes m pre hp hv q]
+  simp only [Bool.not_eq_true', Bool.not_eq_true]
+  unfold oneBelow
+  constructor
+  · rintro ⟨⟨k, hk, c, h1, h2, h3, h4⟩, h5⟩
+    exact ⟨⟨⟨c, h1, h2, h3⟩, k, hk, h4⟩, h5⟩
+  · rintro ⟨⟨⟨c, h1, h2, h3⟩, k, hk, h4⟩, h5⟩
+    exact ⟨⟨k, hk, c, h1, h2, h3, h4⟩, h5⟩
+
+theorem node_has_key (r : Reader) (m : KV) (q : Key) (k : Kind) (h : getMeta r m q = .node k) :
+    ∃ key ∈ m.keys, q.isPrefixOf key = true := by
+  obtain ⟨s, _, hs⟩ := getMeta_node_key r m q k h
+  exact ⟨_, hs, by rw [List.isPrefixOf_iff_prefix]; exact List.prefix_append q s⟩
+
+/-- every listing succeeds on a readable store -/
+theorem childNodes_some (r : Reader) (m : KV) (hr : ∀ q, getMeta r m q ≠ .invalid) (fuel : Nat) :
+    ∀ (rec : Bool) (pre : Key), ∃ ts, childNodes r m rec fuel pre = some ts := by
+  induction fuel with
+  | zero => intro rec pre; exact ⟨[], by rw [childNodes]⟩
+  | succ f ih =>
+    intro rec pre
+    rw [childNodes]
+    obtain ⟨ts, hts, _⟩ := childList_spec r m rec f (fun q x => ∃ k, ∃ cs, subNodes r m rec f q k = some cs ∧
+        getMeta r m q = .node k ∧ x ∈ flattenList cs) (discover m pre)
+      (fun q _ => hr q) (by
+        intro q _ k hk
+        have : ∃ cs, subNodes r m rec f q k = some cs := by
+          unfold subNodes
+          split
+          · exact ih true q
+          · exact ⟨[], rfl⟩
+        obtain ⟨cs, hcs⟩ := this
+        refine ⟨cs, hcs, fun x => ⟨fun hx => ⟨k, cs, hcs, hk, hx⟩, ?_⟩⟩
+        rintro ⟨k', cs', hcs', hk', hx⟩
+        rw [hk] at hk'; cases hk'
+        rw [hcs] at hcs'; cases hcs'
+        exact hx)
+    exact ⟨ts, hts⟩
+
+theorem depthBound_pos (m : KV) : ∃ n, depthBound m = n + 1 := ⟨_, rfl⟩
+
+/-- direct children -/
+theorem children_false (r : Reader) (m : KV) (hv : ∀ k ∈ m.keys, validKeyB k = true) (hr : ∀ q, getMeta r m q ≠ .invalid)
+    (pre : Key) (hp : dirShaped pre) :
+    ∃ ns, children r m false pre = some ns ∧
+      ∀ q k, (q, k) ∈ ns ↔ (oneBelow pre q ∧ ¬ ("__".toList.isPrefixOf q = true) ∧ getMeta r m q = .node k) := by
+  obtain ⟨n, hn⟩ := depthBound_pos m
+  unfold children
+  rw [hn, childNodes]
+  obtain ⟨ts, hts, hmem⟩ := childList_spec r m false n (fun _ _ => False) (discover m pre) (fun q _ => hr q)
+    (fun q _ k _ => ⟨[], by simp [subNodes], by simp [flattenList_nil]⟩)
+  refine ⟨flattenList ts, by rw [hts]; rfl, ?_⟩
+  intro q k
+  rw [hmem]
+  constructor
+  · rintro ⟨q', hq', k', hk', hx | hx⟩
+    · cases hx
+      rw [mem_discover m pre hp hv] at hq'
+      exact ⟨hq'.1.1, hq'.2, hk'⟩
+    · exact absurd hx id
+  · rintro ⟨h1, h2, h3⟩
+    exact ⟨q, (mem_discover m pre hp hv q).2 ⟨⟨h1, node_has_key r m q k h3⟩, h2⟩, k, h3, Or.inl rfl⟩
+
+/-! ### prefix facts for the tree theorem -/
+
+theorem any_zip_prefix (f : Char × Char → Bool) (x z : Key) (h : (List.zip x (x.drop 1)).any f = true) :
+    (List.zip (x ++ z) ((x ++ z).drop 1)).any f = true := by
+  induction x with
+  | nil => simp at h
+  | cons a xs ih =>
+    cases xs with
+    | nil => simp at h
+    | cons b xs' =>
+      simp only [List.drop_succ_cons, List.drop_zero, List.zip_cons_cons, List.any_cons, Bool.or_eq_true,
+        List.cons_append] at h ih ⊢
+      rcases h with h | h
+      · exact Or.inl h
+      · exact Or.inr (ih h)
+
+theorem validKeyB_of_prefix_slash (x y : Key) (h : validKeyB (x ++ '/' :: y) = true) : validKeyB x = true := by
+  unfold validKeyB at h ⊢
+  simp only [Bool.and_eq_true, Bool.not_eq_true', bne_iff_ne, ne_eq] at h ⊢
+  obtain ⟨⟨⟨h1, h2⟩, h3⟩, h4⟩ := h
+  have hx : x ≠ [] := by intro e; subst e; simp at h2
+  refine ⟨⟨⟨by simpa using hx, ?_⟩, ?_⟩, ?_⟩
+  · cases x with
+    | nil => exact absurd rfl hx
+    | cons a xs => simpa using h2
+  · intro hl
+    obtain ⟨x', rfl⟩ := List.getLast?_eq_some_iff.1 hl
+    have := doubleSlash_any x' y
+    simp only [List.append_assoc, List.singleton_append] at h4
+    rw [this] at h4
+    cases h4
+  · rw [Bool.eq_false_iff]
+    intro hc
+    rw [any_zip_prefix _ x ('/' :: y) hc] at h4
+    cases h4
+
+/-- a child prefix with a key beneath it is a valid prefix -/
+theorem validPrefixB_of_key (x : Key) (key : Key) (hk : validKeyB key = true) (hp : (x ++ ['/']) <+: key) : validPrefixB (x ++ ['/']) = true := by
+  obtain ⟨t, rfl⟩ := hp
+  unfold validPrefixB
+  rw [List.dropLast_concat, List.getLast?_concat]
+  have : validKeyB x = true := by
+    apply validKeyB_of_prefix_slash x t
+    simpa using hk
+  simp [this]
+
+theorem reserved_iff_of_prefix (q q' : Key) (h : q <+: q') (hl : 2 ≤ q.length) :
+    "__".toList.isPrefixOf q = true ↔ "__".toList.isPrefixOf q' = true := by
+  rw [List.isPrefixOf_iff_prefix, List.isPrefixOf_iff_prefix]
+  constructor
+  · intro h1; exact h1.trans h
+  · intro h1; exact List.prefix_of_prefix_length_le h1 h (by simpa using hl)
+
+theorem oneBelow_length (pre q : Key) (h : oneBelow pre q) : pre.length + 2 ≤ q.length := by
+  obtain ⟨c, hc, _, rfl⟩ := h
+  cases c with
+  | nil => exact absurd rfl hc
+  | cons a as => simp
+
+theorem oneBelow_prefix (pre q : Key) (h : oneBelow pre q) : pre <+: q := by
+  obtain ⟨c, _, _, rfl⟩ := h
+  exact ⟨c ++ ['/'], by simp⟩
+
+theorem oneBelow_dirShaped (pre q : Key) (h : oneBelow pre q) : dirShaped q := by
+  obtain ⟨c, _, _, rfl⟩ := h
+  exact Or.inr ⟨_, rfl⟩
+
+theorem oneBelow_getLast (pre q : Key) (h : oneBelow pre q) : q.getLast? = some '/' := by
+  obtain ⟨c, _, _, rfl⟩ := h
+  exact List.getLast?_concat ..
+
+/-- nothing ending in '/' lies strictly between a prefix and its child prefix -/
+theorem oneBelow_mid (pre q mid : Key) (h : oneBelow pre q) (h1 : pre <+: mid) (h2 : mid <+: q)
+    (h3 : pre.length < mid.length) (h4 : mid.getLast? = some '/') : mid = q := by
+  obtain ⟨c, _, hc, rfl⟩ := h
+  obtain ⟨t, rfl⟩ := h1
+  rw [List.append_assoc] at h2 ⊢
+  have ht : t <+: c ++ ['/'] := (List.prefix_append_right_inj pre).1 h2
+  have htne : t ≠ [] := by intro e; subst e; simp at h3
+  have htl : t.getLast? = some '/' := by
+    rw [List.getLast?_append] at h4
+    cases hgl : t.getLast? with
+    | none => rw [List.getLast?_eq_none_iff] at hgl; exact absurd hgl htne
+    | some x => rw [hgl] at h4; simpa using h4
+  by_cases hl : t.length ≤ c.length
+  · have : t <+: c := List.prefix_of_prefix_length_le ht (List.prefix_append c _) hl
+    exact absurd (this.subset (List.mem_of_getLast? htl)) hc
+  · have hle := ht.length_le
+    simp only [List.length_append, List.length_singleton] at hle
+    rw [ht.eq_of_length (by simp; omega)]
+
+/-! ### the tree below a prefix -/
+
+/-- every prefix strictly between `pre` and `q` holds group metadata -/
+def between (r : Reader) (m : KV) (pre q : Key) : Prop :=
+  ∀ mid : Key, pre.isPrefixOf mid = true → mid.isPrefixOf q = true → mid ≠ q → mid.length > pre.length →
+    mid.getLast? = some '/' → ∃ k, getMeta r m mid = .node k ∧ k.isGroup = true
+
+/-- `q` is a node of kind `k` reachable from `pre` through groups -/
+def below (r : Reader) (m : KV) (pre q : Key) (k : Kind) : Prop :=
+  pre.isPrefixOf q = true ∧ q ≠ pre ∧ validPrefixB q = true ∧ getMeta r m q = .node k ∧
+    between r m pre q ∧ ¬ ("__".toList.isPrefixOf q = true)
+
+/-- what is listed beneath a child `q`: `q` is a group and the node is below it -/
+def belowGroup (r : Reader) (m : KV) (q : Key) (x : Key × Kind) : Prop :=
+  (∃ k, getMeta r m q = .node k ∧ k.isGroup = true) ∧ below r m q x.1 x.2
+
+/-- the first path component below `pre` on the way to a valid prefix `q'` -/
+theorem first_step (m : KV) (hv : ∀ k ∈ m.keys, validKeyB k = true) (pre : Key) (hp : dirShaped pre) (q' : Key)
+    (h1 : pre <+: q') (h2 : q' ≠ pre) (h3 : q'.getLast? = some '/')
+    (hkey : ∃ key ∈ m.keys, q' <+: key) :
+    ∃ q t, oneBelow pre q ∧ q' = q ++ t := by
+  obtain ⟨s, rfl⟩ := h1
+  have hsne : s ≠ [] := by intro e; subst e; simp at h2
+  obtain ⟨key, hkey, ⟨u, rfl⟩⟩ := hkey
+  have hval := hv _ hkey
+  rw [List.append_assoc] at hval
+  obtain ⟨_, hhead⟩ := validKey_rest pre (s ++ u) hp hval
+  have hshead : s.head? ≠ some '/' := by
+    cases s with
+    | nil => exact absurd rfl hsne
+    | cons a as => simpa using hhead
+  have hsl : s.getLast? = some '/' := by
+    rw [List.getLast?_append] at h3
+    cases hgl : s.getLast? with
+    | none => rw [List.getLast?_eq_none_iff] at hgl; exact absurd hgl hsne
+    | some x => rw [hgl] at h3; simpa using h3
+  have hmore : (firstComponent s).2 = true := by
+    cases hb : (firstComponent s).2 with
+    | true => rfl
+    | false => exact absurd (List.mem_of_getLast? hsl) (firstComponent_nomore s hb)
+  obtain ⟨t, ht⟩ := firstComponent_more s hmore
+  refine ⟨pre ++ (firstComponent s).1 ++ ['/'], t,
+    ⟨(firstComponent s).1, firstComponent_ne_nil s hsne hshead, firstComponent_noSlash s, rfl⟩, ?_⟩
+  conv => lhs; rw [ht]
+  simp
+
+theorem below_iff (r : Reader) (m : KV) (hv : ∀ k ∈ m.keys, validKeyB k = true) (pre : Key) (hp : dirShaped pre)
+    (x : Key × Kind) :
+    below r m pre x.1 x.2 ↔
+      ∃ q ∈ discover m pre, ∃ k, getMeta r m q = .node k ∧ (x = (q, k) ∨ belowGroup r m q x) := by
+  obtain ⟨q', k'⟩ := x
+  simp only
+  constructor
+  · rintro ⟨h1, h2, h3, h4, h5, h6⟩
+    rw [List.isPrefixOf_iff_prefix] at h1
+    obtain ⟨key, hkey, hqk⟩ := node_has_key r m q' k' h4
+    rw [List.isPrefixOf_iff_prefix] at hqk
+    have hq'ne : q' ≠ [] := by
+      intro e; subst e
+      exact h2 (List.prefix_nil.1 h1).symm
+    have hlast : q'.getLast? = some '/' := by
+      unfold validPrefixB at h3
+      simp only [Bool.or_eq_true, Bool.and_eq_true, beq_iff_eq, List.isEmpty_iff] at h3
+      rcases h3 with h3 | h3
+      · exact absurd h3 hq'ne
+      · exact h3.1
+    obtain ⟨q, t, hob, rfl⟩ := first_step m hv pre hp q' h1 h2 hlast ⟨key, hkey, hqk⟩
+    have hqq' : q <+: q ++ t := List.prefix_append q t
+    have hlen := oneBelow_length pre q hob
+    have hdisc : q ∈ discover m pre := by
+      rw [mem_discover m pre hp hv]
+      refine ⟨⟨hob, key, hkey, ?_⟩, ?_⟩
+      · rw [List.isPrefixOf_iff_prefix]; exact hqq'.trans hqk
+      · rw [reserved_iff_of_prefix q (q ++ t) hqq' (by omega)]; exact h6
+    by_cases ht : t = []
+    · subst ht
+      rw [List.append_nil] at h4 ⊢
+      exact ⟨q, hdisc, k', h4, Or.inl rfl⟩
+    · have hne : q ≠ q ++ t := by
+        intro e
+        have := congrArg List.length e
+        simp at this
+        exact ht this
+      obtain ⟨k, hk, hg⟩ := h5 q (by rw [List.isPrefixOf_iff_prefix]; exact oneBelow_prefix pre q hob)
+        (by rw [List.isPrefixOf_iff_prefix]; exact hqq') hne (by omega) (oneBelow_getLast pre q hob)
+      refine ⟨q, hdisc, k, hk, Or.inr ⟨⟨k, hk, hg⟩, ?_⟩⟩
+      refine ⟨by rw [List.isPrefixOf_iff_prefix]; exact hqq', fun e => hne e.symm, h3, h4, ?_, h6⟩
+      intro mid g1 g2 g3 g4 g5
+      rw [List.isPrefixOf_iff_prefix] at g1
+      refine h5 mid ?_ g2 g3 (by omega) g5
+      rw [List.isPrefixOf_iff_prefix]
+      exact (oneBelow_prefix pre q hob).trans g1
+  · rintro ⟨q, hq, k, hk, hx⟩
+    rw [mem_discover m pre hp hv] at hq
+    obtain ⟨⟨hob, key, hkey, hqk⟩, hres⟩ := hq
+    rw [List.isPrefixOf_iff_prefix] at hqk
+    have hlen := oneBelow_length pre q hob
+    have hpq := oneBelow_prefix pre q hob
+    rcases hx with hx | ⟨⟨k2, hk2, hg⟩, g1, g2, g3, g4, g5, g6⟩
+    · cases hx
+      refine ⟨by rw [List.isPrefixOf_iff_prefix]; exact hpq, ?_, ?_, hk, ?_, hres⟩
+      · intro e; rw [e] at hlen; omega
+      · obtain ⟨c, _, _, rfl⟩ := hob
+        exact validPrefixB_of_key (pre ++ c) key (hv _ hkey) hqk
+      · intro mid g1 g2 g3 g4 g5
+        rw [List.isPrefixOf_iff_prefix] at g1 g2
+        exact absurd (oneBelow_mid pre q' mid hob g1 g2 g4 g5) g3
+    · simp only at g1 g2 g3 g4 g5 g6
+      rw [List.isPrefixOf_iff_prefix] at g1
+      have hlen' := g1.length_le
+      refine ⟨by rw [List.isPrefixOf_iff_prefix]; exact hpq.trans g1, ?_, g3, g4, ?_, g6⟩
+      · intro e; rw [e] at hlen'; omega
+      · intro mid f1 f2 f3 f4 f5
+        rw [List.isPrefixOf_iff_prefix] at f1 f2
+        by_cases hl : mid.length ≤ q.length
+        · have hmq : mid <+: q := List.prefix_of_prefix_length_le f2 g1 hl
+          have := oneBelow_mid pre q mid hob f1 hmq f4 f5
+          subst this
+          exact ⟨k2, hk2, hg⟩
+        · have hqm : q <+: mid := List.prefix_of_prefix_length_le g1 f2 (by omega)
+          exact g5 mid (by rw [List.isPrefixOf_iff_prefix]; exact hqm) (by rw [List.isPrefixOf_iff_prefix]; exact f2)
+            f3 (by omega) f5
+
+theorem le_foldl_max (l : List Nat) (a : Nat) : a ≤ l.foldl max a ∧ ∀ x ∈ l, x ≤ l.foldl max a := by
+  induction l generalizing a with
+  | nil => simp
+  | cons y ys ih =>
+    rw [List.foldl_cons]
+    obtain ⟨h1, h2⟩ := ih (max a y)
+    refine ⟨by omega, ?_⟩
+    intro x hx
+    rcases List.mem_cons.1 hx with rfl | hx
+    · omega
+    · exact h2 x hx
+
+theorem length_lt_depthBound (m : KV) : ∀ k ∈ m.keys, k.length < depthBound m := by
+  intro k hk
+  unfold depthBound
+  have := (le_foldl_max (m.keys.map List.length) 0).2 k.length (List.mem_map_of_mem hk)
+  omega
+
+/-- the recursive listing, for any fuel that covers the keys below the prefix -/
+theorem childNodes_true (r : Reader) (m : KV) (hv : ∀ k ∈ m.keys, validKeyB k = true)
+    (hr : ∀ q, getMeta r m q ≠ .invalid) (L : Nat) (hL : ∀ k ∈ m.keys, k.length < L) (fuel : Nat) :
+    ∀ pre, dirShaped pre → L ≤ fuel + pre.length →
+      ∃ ts, childNodes r m true fuel pre = some ts ∧ ∀ x, x ∈ flattenList ts ↔ below r m pre x.1 x.2 := by
+  induction fuel with
+  | zero =>
+    intro pre _ hl
+    refine ⟨[], by rw [childNodes], ?_⟩
+    intro x
+    rw [flattenList_nil]
+    simp only [List.not_mem_nil, false_iff]
+    rintro ⟨h1, h2, _, h4, _, _⟩
+    rw [List.isPrefixOf_iff_prefix] at h1
+    obtain ⟨key, hkey, hqk⟩ := node_has_key r m x.1 x.2 h4
+    rw [List.isPrefixOf_iff_prefix] at hqk
+    have := hL key hkey
+    have := h1.length_le
+    have := hqk.length_le
+    have : x.1.length ≠ pre.length := fun e => h2 (h1.eq_of_length e.symm).symm
+    omega
+  | succ f ih =>
+    intro pre hp hl
+    rw [childNodes]
+    obtain ⟨ts, hts, hmem⟩ := childList_spec r m true f (belowGroup r m) (discover m pre) (fun q _ => hr q) (by
+      intro q hq k hk
+      rw [mem_discover m pre hp hv] at hq
+      have hob := hq.1.1
+      have hlen := oneBelow_length pre q hob
+      unfold subNodes
+      cases hg : k.isGroup with
+      | true =>
+        obtain ⟨cs, hcs, hcmem⟩ := ih q (oneBelow_dirShaped pre q hob) (by omega)
+        refine ⟨cs, by simpa using hcs, ?_⟩
+        intro x
+        rw [hcmem]
+        exact ⟨fun h => ⟨⟨k, hk, hg⟩, h⟩, fun h => h.2⟩
+      | false =>
+        refine ⟨[], by simp, ?_⟩
+        intro x
+        rw [flattenList_nil]
+        simp only [List.not_mem_nil, false_iff]
+        rintro ⟨⟨k2, hk2, hg2⟩, _⟩
+        rw [hk] at hk2; cases hk2
+        rw [hg] at hg2; cases hg2)
+    refine ⟨ts, hts, ?_⟩
+    intro x
+    rw [hmem, below_iff r m hv pre hp x]
+
+/-- the whole tree beneath a prefix -/
+theorem children_true (r : Reader) (m : KV) (hv : ∀ k ∈ m.keys, validKeyB k = true) (hr : ∀ q, getMeta r m q ≠ .invalid)
+    (pre : Key) (hp : dirShaped pre) :
+    ∃ ns, children r m true pre = some ns ∧ ∀ q k, (q, k) ∈ ns ↔ below r m pre q k := by
+  obtain ⟨ts, hts, hmem⟩ := childNodes_true r m hv hr (depthBound m) (length_lt_depthBound m) (depthBound m) pre hp
+    (by omega)
+  refine ⟨flattenList ts, by unfold children; rw [hts]; rfl, ?_⟩
+  intro q k
+  exact hmem (q, k)
+
+/-! ### a sufficient condition for readability (used for the non-vacuity examples) -/
+
+theorem KV.get_mem (m : KV) (k : Key) (v : Bytes) (h : m.get k = some v) : (k, v) ∈ m := by
+  unfold KV.get at h
+  simp only [Option.map_eq_some_iff] at h
+  obtain ⟨kv, hkv, rfl⟩ := h
+  have h1 := List.find?_some hkv
+  have h2 := List.mem_of_find?_eq_some hkv
+  have : kv.1 = k := by simpa using h1
+  subst this
+  exact h2
+
+/-- if every stored value reads as some node document, no prefix has unreadable metadata -/
+theorem readable_of_values (r : Reader) (m : KV) (h : ∀ kv ∈ m, r.cls kv.2 ≠ none ∧ r.okA kv.2 = true ∧
+    r.okG kv.2 = true ∧ r.okAttrs kv.2 = true) : ∀ pre, getMeta r m pre ≠ .invalid := by
+  intro pre
+  rw [getMeta_eq]
+  have hao : attrsOk r m pre = true := by
+    unfold attrsOk
+    split
+    · rename_i a ha; exact (h _ (KV.get_mem m _ a ha)).2.2.2
+    · rfl
+  rw [hao]
+  cases h1 : m.get (pre ++ kZarrJson) with
+  | some v =>
+    have := (h _ (KV.get_mem m _ v h1)).1
+    simp only at this ⊢
+    cases hc : r.cls v with
+    | none => exact absurd hc this
+    | some b => cases b <;> simp
+  | none =>
+    cases h2 : m.get (pre ++ kZarray) with
+    | some v => simp [(h _ (KV.get_mem m _ v h2)).2.1]
+    | none =>
+      cases h3 : m.get (pre ++ kZgroup) with
+      | some v => simp [(h _ (KV.get_mem m _ v h3)).2.2.1]
+      | none => simp
+
+end Zarrs.Hier
